@@ -141,6 +141,7 @@ def parseStep (s : String) : Option Step :=
   | ["rot"] => some .rot
   | ["exp"] => some .exp
   | ["fail"] => some .fail
+  | ["tfail"] => some .fail      -- same model step; the harness makes the backend error a *temporary* one
   | _ => none
 
 open Relic.KeyCache in
